@@ -7,10 +7,10 @@
   their own; `Orch.run (Orch.init true) ls` over EVERY interleaving of observer revisions, task deaths
   and the orchestrator's segments. No bound on lengths or versions.
   Statement vocabulary: `Covered`, `viewOf`, `stateAt`, `Quiet`, `recover`, `resumeOK`, `oldestReq`,
-  `reqCount`, `attemptCount` (Model/C19_Watch); `Target`, `Live`, `remaining` (Model/C19_Ensemble);
+  `reqCount`, `attemptCount` (Model/C19_Watch); `evView`, `AllDelivered`, `OnlyChanges` (Model/C19_Insights); `Target`, `Live`, `remaining` (Model/C19_Ensemble);
   `Quiescent` (Model/C19_Orchestrator); `RelistsAfter` (Model/C19_Watch); `Clusterwide`, `Namespaced`, `ScopeStable` (here).
 -/
-import Kopf.Lemmas.C19_Progress
+import Kopf.Lemmas.C19_Insights
 import Kopf.Lemmas.C19_Ensemble
 import Kopf.Lemmas.C19_Orchestrator
 namespace Kopf.C19
@@ -234,6 +234,29 @@ theorem paused_no_watch_attempt (pre : List Act) (hq : Quiet (run init pre)) (hp
       rw [ih hrest (step w a) (quiet_step_paused hq hp a).1 (paused_step hp ha) (connFresh_step hc a),
         watchAttempt_step_quiet hq hc a]
 
+/-- **… and no watch event reaches the consumer while paused.** From the moment the pause has been
+    noticed and for as long as the toggle stays on, no watch event and no bookmark is yielded, whatever
+    the server sends (the response is closed / the request cancelled at the notice). What CAN still be
+    yielded are the items of a listing that was outstanding at the notice (`fetching.list_objs` has no
+    stopper — the same root as C19-F2). -/
+theorem paused_no_event (pre : List Act) (hq : Quiet (run init pre)) (hp : (run init pre).paused = true)
+    (as : List Act) (hres : Act.resume ∉ as) :
+    eventCount (run (run init pre) as).outs = eventCount (run init pre).outs := by
+  have hc : ConnFresh (run init pre) := connFresh_run connFresh_init pre
+  generalize run init pre = w at hq hp hc
+  induction as generalizing w with
+  | nil => rfl
+  | cons a as ih =>
+      have ha : a ≠ .resume := fun h => hres (h ▸ List.mem_cons_self)
+      have hrest : Act.resume ∉ as := fun h => hres (List.mem_cons_of_mem _ h)
+      show eventCount (run (step w a) as).outs = _
+      rw [ih hrest (step w a) (quiet_step_paused hq hp a).1 (paused_step hp ha) (connFresh_step hc a),
+        event_step_quiet hq hc a]
+
+/-- a listing outstanding when the pause is noticed is still answered and yielded while paused -/
+example : (run init [.change 1 .added true, .wake, .pause, .notice, .respond]).outs
+    = [.listed 1, .item 1 1, .reqList] := by decide
+
 /-- a watch request asleep in its retry loop when the pause is noticed: cancelled, nothing re-sent -/
 example :
     let w := run init [.wake, .respond, .drop .eof, .retry, .pause, .notice]
@@ -297,6 +320,77 @@ theorem quiescence_reachable (as : List Act) :
 example : let w := run (run init [.wake, .change 1 .added true, .respond, .pause, .notice, .respond, .change 1 .modified true]) recover
     w.phase = .streaming ∧ viewOf w.outs 1 = some 2 := by decide
 
+
+/-! ## From the cluster to the insights: which namespaces are served -/
+
+/-- **The served namespaces follow the cluster — partial.** `insights.namespaces` (`evView`: the observer's
+    own listing, then the EVENTS of the namespace watch-stream; its listings are ignored) equals the
+    cluster's namespaces as of the stream's position, for every history of the cluster before the start
+    (`pre`), and every adversary script afterwards — under the exact guard `AllDelivered`: every change
+    since the observer's own listing went through the stream as an event. At quiescence that is the
+    CURRENT set of namespaces.
+
+    Full statement wanted by the property ("for every history of namespace additions and removals … served
+    pair"): the same without the guard. False of the code: `listed_namespace_ignored_witness` (C19-F8). -/
+theorem insights_follow_cluster_partial (pre as : List Act) (hpre : OnlyChanges pre) :
+    let w0 := run init pre
+    let w := run w0 as
+    AllDelivered w0.srv w →
+      (∀ k, evView (stateAt w0.log w0.srv) w.outs k = stateAt w.log (max w0.srv w.since) k) ∧
+      (w.phase = .streaming → nextEntry w.log w.since = none →
+        ∀ k, evView (stateAt w0.log w0.srv) w.outs k = stateAt w.log w.srv k) := by
+  intro w0 w had
+  have hi0 : Inv w0 := inv_run inv_init pre
+  have hI : IInv (stateAt w0.log w0.srv) w0.srv w := iinv_run as hi0 (iinv_start pre hpre)
+  refine ⟨hI.main had, ?_⟩
+  intro hph hn k
+  rw [hI.main had k]
+  have hi : Inv w := inv_run hi0 as
+  have hall := nextEntry_none hn
+  unfold stateAt
+  have h1 : w.log.filter (fun x => decide (x.rv ≤ max w0.srv w.since)) = w.log := by
+    apply filter_le_of_bound; intro e he; have := hall e he; omega
+  rw [h1, filter_le_of_bound hi.bound]
+
+/-- the guard is met by a run in which the namespaces change only while the stream is open -/
+example :
+    let pre : List Act := [.change 1 .added true]
+    let as : List Act := [.wake, .respond, .respond, .change 2 .added true, .deliver, .change 1 .deleted true, .deliver]
+    OnlyChanges pre ∧ AllDelivered (run init pre).srv (run (run init pre) as) ∧
+    evView (stateAt (run init pre).log (run init pre).srv) (run (run init pre) as).outs 1 = none ∧
+    evView (stateAt (run init pre).log (run init pre).srv) (run (run init pre) as).outs 2 = some 2 := by
+  refine ⟨?_, ?_, by decide, by decide⟩
+  · intro a ha; simp at ha; subst ha; exact ⟨1, .added, true, rfl⟩
+  · intro e he h1 h2
+    have : e ∈ [(⟨1, 1, .added⟩ : Entry), ⟨2, 2, .added⟩, ⟨3, 1, .deleted⟩] := he
+    simp at this
+    rcases this with rfl | rfl | rfl
+    · exact absurd h1 (by decide)
+    · decide
+    · decide
+
+/-- **The guard is needed (C19-F8): a namespace that appears or vanishes while the namespace watch is down
+    is never served / never un-served.** (a) start-up: namespace 2 is created between the observer's own
+    listing and the stream's first listing; (b) re-list gap: after an in-stream 410 ("This is normal"),
+    during the backoff, namespace 3 is created and namespace 1 deleted. In both runs the stream is open
+    again with nothing pending, the listings contained the truth (`viewOf`), but the insights still show
+    the old world: 2 resp. 3 are not served, 1 is still served — until the operator restarts. -/
+theorem listed_namespace_ignored_witness :
+    (let pre : List Act := [.change 1 .added true]
+     let w := run (run init pre) [.change 2 .added true, .wake, .respond, .respond]
+     OnlyChanges pre ∧ w.phase = .streaming ∧ nextEntry w.log w.since = none ∧
+     viewOf w.outs 2 = some 2 ∧ stateAt w.log w.srv 2 = some 2 ∧
+     evView (stateAt (run init pre).log (run init pre).srv) w.outs 2 = none) ∧
+    (let pre : List Act := [.change 1 .added true]
+     let w := run (run init pre) [.wake, .respond, .respond, .err410, .change 3 .added true, .change 1 .deleted true,
+                                  .wake, .respond, .respond]
+     w.phase = .streaming ∧ nextEntry w.log w.since = none ∧
+     stateAt w.log w.srv 3 = some 2 ∧ stateAt w.log w.srv 1 = none ∧
+     evView (stateAt (run init pre).log (run init pre).srv) w.outs 3 = none ∧
+     evView (stateAt (run init pre).log (run init pre).srv) w.outs 1 = some 1) := by
+  refine ⟨⟨?_, by decide, by decide, by decide, by decide, by decide⟩,
+    ⟨by decide, by decide, by decide, by decide, by decide, by decide⟩⟩
+  intro a ha; simp at ha; subst ha; exact ⟨1, .added, true, rfl⟩
 
 /-! ## Across watches: the ensemble -/
 
@@ -371,6 +465,9 @@ def ScopeStable (h : List Insights) : Prop :=
     Guards: (1) the operator's mode is fixed: cluster-wide (`{None}`, possibly still empty earlier, `{None}`
     now) or namespaced (`None` never among the namespaces); (2) a resource keeps its scope (`ScopeStable`);
     (3) in namespaced mode: some namespace is served or no served resource is cluster-scoped.
+    (3) is sufficient, not exact: the exact gap is history-dependent — "a key `(r, None)` of a cluster-scoped
+    `r` was spawned while a namespace was served, and none is served now"; e.g. the first revision of a
+    namespaced start-up, `[⟨[ct], []⟩]`, violates (3) although nothing lingers (keys = [] = targets).
     Full statement wanted by the property: the same without (3). That is false of the code: `terminate_redundancies` always keeps
     namespace `None` (`insights.namespaces | {None}`), see `exactly_one_watch_lingering_witness`. -/
 theorem exactly_one_watch_partial (pre : List Ev) (last : Insights)
@@ -511,7 +608,7 @@ theorem no_lost_wakeup (ls : List Orch.Label) (s : Orch.State)
 /-- **Exactly the served pairs are watched, with revisions and deaths arriving at any time** — the
     asynchronous lift of `exactly_one_watch_partial` (same guards, over every revision ever made; the
     cluster-wide form admits the empty start-up revisions): at quiescence the watcher keys are the served
-    pairs of the CURRENT insights. Whether those watchers are running: `served_pairs_live_async`. -/
+    pairs of the CURRENT insights. Whether those watchers are running: `served_pairs_live_async_partial`. -/
 theorem exactly_one_watch_async_partial (ls : List Orch.Label) (s : Orch.State)
     (hr : Orch.run (Orch.init true) ls = some s) (hq : Orch.Quiescent s) (hrev : s.revs ≠ [])
     (hscope : ∀ i ∈ s.revs, ∀ j ∈ s.revs, ∀ r ∈ i.watched, ∀ r' ∈ j.watched, r.name = r'.name → r.namespaced = r'.namespaced)
@@ -527,10 +624,12 @@ theorem exactly_one_watch_async_partial (ls : List Orch.Label) (s : Orch.State)
     · exact Or.inl ⟨fun i hi => hc i (hin i hi), hl⟩
     · exact Or.inr ⟨fun i hi => hn i (hin i hi), hg⟩
 
-/-- **At quiescence every served pair has a running watcher — unless a watcher died since the last pass.**
-    No death since the last pass looked at the tasks (`diedSince = []`): every served pair is live and no
-    dead task is in the ensemble. -/
-theorem served_pairs_live_async (ls : List Orch.Label) (s : Orch.State)
+/-- **At quiescence every served pair has a running watcher — partial.** Guard: no death since the last
+    pass looked at the tasks (`diedSince = []`; slightly broader than the gap: the death of a watcher whose
+    pair is no longer served is harmless). Then every served pair is live and no dead task is in the ensemble.
+    Full statement wanted by the property: the same without the guard. False of the code:
+    `death_while_idle_witness` (finding C19-F6). -/
+theorem served_pairs_live_async_partial (ls : List Orch.Label) (s : Orch.State)
     (hr : Orch.run (Orch.init true) ls = some s) (hq : Orch.Quiescent s) (hrev : s.revs ≠ [])
     (hnd : s.diedSince = []) :
     (∀ k, Target s.ins k → Live s.ens k) ∧ ∀ t ∈ s.ens.watchers, t.2 ∉ s.ens.dead := by
